@@ -22,9 +22,14 @@ type Case struct {
 const tolNs = 2000000 // 2 ms
 
 var (
+	// "" is a legal key. The lone pattern "?" and the key "" never meet in one sequence: gobwas/glob's
+	// Compile("?").Match("") is true (the in-memory store lists the empty key for "?", Redis and the contract
+	// do not) - reported, not probed here. A sequence either has the empty key or the pattern "?".
 	keys   = []string{"a", "b", "ab", "k/1"}
-	pats   = []string{"*", "a*", "?", "a?", "[ab]", "k/*", "zz"}
-	exps   = []string{"", "1h", "-1h"}
+	pats   = []string{"*", "a*", "?", "a?", "[ab]", "k/*", "zz", ""}
+	keysE  = []string{"a", "b", "ab", "k/1", ""}
+	patsE  = []string{"*", "a*", "a?", "[ab]", "k/*", "zz", "", "??"}
+	exps   = []string{"", "1h", "-1h", "1h", "-1h", "epoch", "zero"} // epoch / zero: time.Unix(0,0) / time.Time{} as ExpiresAt
 	vers   = []string{"cur", "cur", "cur", "old", "unk", "empty"}
 	inmemB *kvx.Backend
 	redisB *kvx.Backend
@@ -118,7 +123,42 @@ func enumerate(depth int, alpha []kvx.Op, writeFirst bool, f func([]kvx.Op)) {
 	rec(0)
 }
 
-func randomOp(r *prng.R) kvx.Op {
+// bigBatch is a PutMany of several hundred records: Head followed by Rep copies of a pattern of 1..4
+// records over the key alphabet (so the same keys are written over and over). The total is 260..700, or
+// sits on a power-of-two boundary (255..257, 511..513) half of the time.
+func bigBatch(r *prng.R, keys []string, mustEnd string) kvx.Op {
+	n := r.Range(260, 700)
+	if r.Chance(1, 2) {
+		n = prng.Pick(r, []int{255, 256, 257, 511, 512, 513})
+	}
+	l := prng.Pick(r, []int{1, 1, 2, 2, 4, 3})
+	noexp := r.Chance(3, 4) // the Redis client sends such a batch as one MSET
+	rec := func() kvx.RecIn {
+		x := kvx.RecIn{Key: prng.Pick(r, keys), Val: r.Intn(4)}
+		if !noexp && r.Chance(1, 3) {
+			x.Exp = prng.Pick(r, exps)
+		}
+		return x
+	}
+	pat := make([]kvx.RecIn, l)
+	for i := range pat {
+		pat[i] = rec()
+	}
+	if mustEnd != "-" {
+		pat[l-1].Key = mustEnd
+	}
+	var head []kvx.RecIn
+	for i := r.Intn(3); i > 0; i-- {
+		head = append(head, rec())
+	}
+	k := (n - len(head)) / l
+	if r.Chance(1, 2) {
+		k = n / l // then the pattern part alone has the chosen size
+	}
+	return kvx.Op{K: "N", Head: head, Recs: pat, Rep: k}
+}
+
+func randomOp(r *prng.R, keys, pats []string) kvx.Op {
 	key := prng.Pick(r, keys)
 	if r.Chance(1, 2) { // concentrate on two keys so that operations meet
 		key = prng.Pick(r, keys[:2])
@@ -145,6 +185,9 @@ func randomOp(r *prng.R) kvx.Op {
 	case x < 46:
 		return kvx.Op{K: "P", Key: key, Val: r.Intn(4), Exp: exp}
 	case x < 58:
+		if r.Chance(1, 12) {
+			return bigBatch(r, keys, "-")
+		}
 		n := r.Range(0, 4)
 		rs := make([]kvx.RecIn, n)
 		noexp := r.Chance(1, 2) // the MSET branch needs all records without expiration
@@ -214,6 +257,61 @@ func main() {
 		enumerate(4, sub, true, func(ops []kvx.Op) { emit("both", ops, "") })
 	}
 
+	// 1b. the empty key: every sequence of depth 3 over a small alphabet around it
+	emptyAlpha := []kvx.Op{
+		{K: "C", Key: "", Val: 2}, {K: "P", Key: "", Val: 1, Exp: "1h"}, {K: "P", Key: "a", Val: 2}, {K: "G", Key: ""},
+		{K: "M", Keys: []string{"", "a", ""}}, {K: "S", Key: "", Ver: "cur", Val: 3}, {K: "D", Key: ""},
+		{K: "L", Pat: "*"}, {K: "L", Pat: ""}, {K: "L", Pat: "??"},
+	}
+	enumerate(3, emptyAlpha, true, func(ops []kvx.Op) { emit("both", ops, "") })
+
+	// 1c. long batches and tight runs of writes: every one of several hundred writes issued back to back must
+	//     get a version of its own. A key is written (its version is seen), a batch of several hundred records
+	//     follows (ending in that key, or not touching it last), then the versions are read back and used
+	nbig := 24
+	if thorough {
+		nbig = 400
+	}
+	for i := 0; i < nbig; i++ {
+		r := prng.New(fl.Seed, "C03big", uint64(i))
+		k := prng.Pick(r, keysE)
+		var ops []kvx.Op
+		if r.Chance(1, 2) {
+			ops = append(ops, kvx.Op{K: "P", Key: k, Val: 2})
+		} else {
+			ops = append(ops, kvx.Op{K: "C", Key: k, Val: 2})
+		}
+		end := k
+		if r.Chance(1, 3) {
+			end = "-"
+		}
+		ops = append(ops, bigBatch(r, keysE, end))
+		ops = append(ops, kvx.Op{K: "M", Keys: keysE}, kvx.Op{K: "S", Key: k, Ver: "old", Val: 1}, kvx.Op{K: "G", Key: k},
+			kvx.Op{K: "S", Key: k, Ver: "cur", Val: 3}, kvx.Op{K: "L", Pat: "*"})
+		for j := r.Range(0, 4); j > 0; j-- {
+			ops = append(ops, randomOp(r, keysE, patsE))
+		}
+		emit("both", ops, "")
+	}
+
+	// 1d. tight runs: several hundred Puts back to back, every returned version is compared (all different, none
+	//     seen before), then the versions are read back and used
+	ntight := 8 // versions are unary numbers in Coq: a run of n costs about n^3, so runs stay just above 256
+	if thorough {
+		ntight = 100
+	}
+	for i := 0; i < ntight; i++ {
+		r := prng.New(fl.Seed, "C03tight", uint64(i))
+		k := prng.Pick(r, keysE)
+		ks := []string{k}
+		for j := r.Intn(3); j > 0; j-- {
+			ks = append(ks, prng.Pick(r, keysE))
+		}
+		ops := []kvx.Op{{K: "C", Key: k, Val: 2}, {K: "T", Keys: ks, Val: r.Intn(3), Rep: r.Range(258, 330)},
+			{K: "G", Key: k}, {K: "S", Key: k, Ver: "old", Val: 1}, {K: "S", Key: k, Ver: "cur", Val: 3}, {K: "M", Keys: ks}}
+		emit("both", ops, "")
+	}
+
 	// 2. random sequences over the full alphabet
 	nrand, n := 1000, 30
 	if thorough {
@@ -222,14 +320,19 @@ func main() {
 	for i := 0; i < nrand; i++ {
 		r := prng.New(fl.Seed, "C03", uint64(i))
 		ops := make([]kvx.Op, n)
+		ks, ps := keys, pats
+		if r.Chance(1, 3) { // a sequence with the empty key
+			ks, ps = keysE, patsE
+		}
 		for j := range ops {
-			ops[j] = randomOp(r)
+			ops[j] = randomOp(r, ks, ps)
 		}
 		emit("both", ops, "")
 	}
 	s.Close("every case is one operation sequence run on inmem.New() and on the Redis client over miniredis (two traces). "+
 		"exhaustive: all sequences of depth 1, 2 and 3 over a 24-step reduced alphabet (quick: depth 3 only with a first step that changes the empty storage - a leading no-op adds nothing to the shorter sequence behind it; "+
 		"thorough: every depth-3 sequence, and depth 4 over a 15-step subset with a writing first step); random: seeded sequences of 30 steps (quick 1000, thorough 10000) over "+
-		"keys {a,b,ab,k/1} x values {nil,\"\",x,300 bytes} x expiry {none,+1h,-1h} x 7 patterns, repeated keys in GetMany/PutMany, CAS with current/stale/unknown/empty version. "+
+		"keys {a,b,ab,k/1,\"\"} x values {nil,\"\",x,300 bytes} x expiry {none,+1h,-1h,Unix epoch,zero time} x 8 patterns (incl. the empty one), repeated keys in GetMany/PutMany, CAS with current/stale/unknown/empty version, "+
+		"one PutMany in a hundred a batch of 255..700 records (a short pattern repeated); plus every depth-3 sequence over a 10-step alphabet around the empty key, and sequences write k / batch of several hundred records / read back and CAS with the earlier and the current version. "+
 		"distinct = by content hash; non-trivial = at least 3 operations with at least one write and one read", false)
 }
